@@ -99,6 +99,14 @@ class Expr:
             return VVal(self.th.const('sentinel:pane.field._MISSING'), py=None)
         if name == 'NotImplementedV' and module == '$spec':
             return VVal(self.th.NotImplV)
+        if name in ('ANNOTATED', 'UNION', 'LITERAL') and module == '$spec':
+            return VVal(self.th.const('typing:' + name.capitalize()))
+        if name in ('GLOBAL_HANDLERS', 'BASIC_CONVERTERS', 'BASIC_WITH_ARGS', 'ABSTRACT_MAPPING') and module == '$spec':
+            mod = {'GLOBAL_HANDLERS': 'pane.convert', 'ABSTRACT_MAPPING': 'pane.convert'}.get(name, 'pane.converters')
+            kind = 'seq' if name == 'GLOBAL_HANDLERS' else 'map'
+            return VVal(self.th.const(f'glob:{mod}._{name}'), kind=kind)
+        if name == 'ELLIPSIS' and module == '$spec':
+            return VVal(self.th.EllipsisV)
         if name == 'ANY' and module == '$spec':
             return VVal(self.th.const('typing:Any'))
         if (module, name) in idx.class_by_mod:
@@ -662,7 +670,7 @@ class Expr:
                 ek = self.shape_of(self.src(node.value) + '[]') if node is not None else None
                 alts = [(has, self.mkval(z3.Select(th.m_getA(cont.term), k), ek)), (z3.Not(has), ('raise', 'KeyError', origin))]
                 return self.with_hash(k, idx, st, origin, alts)
-            if kind in ('typeobj', 'cls', 'callable'):
+            if kind in ('typeobj', 'cls', 'callable') or str(cont.term).startswith('c!typing_'):
                 t = th.fn('subscript_type', th.Val, th.Val, th.Val)(cont.term, self.toVal(idx, st))
                 return [(VVal(t), st)]
         raise OutOfSubset(f'subscript on {type(cont).__name__} (kind {getattr(cont, "kind", None)}): add a shape hint', node)
